@@ -57,8 +57,24 @@
    for every hook, every set of existing objects, every sequence of events and every order of
    the contexts in the array; includeSnapshotsFrom lists need not be sorted here.  hook_wf asks
    what the config loader guarantees (the other bindings are of the four kinds, included names
-   are names of kubernetes bindings) and that jq answers are printed canonically. *)
-From Verif Require Import Common Json C09_Model C09_Spec C09_Proofs.
+   are names of kubernetes bindings) and that jq answers are printed canonically.
+
+   Fourth part (C09_jq_...): the value jq is RUN ON.  The parts above take "the jq result for that
+   very object" as an input (the oracle's answer for the object travels with it).  The code obtains
+   it from pkg/filter/jq ApplyFilter, which runs gojq on a COPY of the object (deepCopy: a JSON
+   round trip) and merges the object-valued outputs.  Model: C09_Model.deep_copy /
+   jq_apply_filter / stored_via / wobj_via with the jq program as an arbitrary function of its
+   input.  C09_jq_input_is_the_object: the copy is the object, member by member at every depth -
+   metadata.managedFields, annotations, uid, resourceVersion, status, anything - so for every jq
+   program the stored filter result is the (merged) jq result of the object the hook sees in
+   `object` (C09_jq_filter_result_of_that_object, ..._event); the three contract theorems hold of the
+   path through the copy (C09_contract_via_copy, C09_flow_contract_via_copy,
+   C09_hook_contract_via_copy).  Domain: objects that stand for a Go map tree (canon_json: one value
+   per key; the harness prints them so); integers beyond 2^53 (float64 in the copy) are outside the
+   model.  The correspondence evaluates every case THROUGH the copy (C09_Corr: ctx_run / flow_run /
+   hcase_run) with the answer of /usr/bin/jq for the object as created in the cluster - objects shaped
+   as an API server returns them in a large share of the cases. *)
+From Verif Require Import Common Json C09_Model C09_Spec C09_Proofs C09_CopyProofs.
 
 Definition C09_full_statement : Prop :=
   forall v cs out, render_list v cs = Some out -> P v cs (Some out) = true.
@@ -300,4 +316,83 @@ Proof.
   destruct WitHook.example_hook_ok as [H1 [H2 [H3 [H3' H4]]]].
   split; [exact H1|]. split; [exact H2|]. split; [exact H3|]. split; [exact H3'|]. split; [now rewrite H4|].
   exact WitHook.confused_obs_rejected.
+Qed.
+
+(* ---------------- the value jq is run on (pkg/filter/jq ApplyFilter) ---------------- *)
+
+(* deepCopy gives jq the object itself: every member at every depth *)
+Theorem C09_jq_input_is_the_object : forall j, canon_json j = true -> deep_copy j = j.
+Proof. exact deep_copy_canon. Qed.
+Print Assumptions C09_jq_input_is_the_object.
+
+(* so jq.ApplyFilter returns the merged jq outputs of the object itself, for every jq program *)
+Theorem C09_jq_apply_filter_object : forall (jq : jq_fn) data,
+  canon_json data = true -> jq_apply_filter jq data = glue (jq data).
+Proof. exact jq_apply_filter_object. Qed.
+Print Assumptions C09_jq_apply_filter_object.
+
+(* `filterResult` equal to the jq result for that very object, next to `object` = that very object
+   (when full objects are kept): for every jq program, every object whatever members it has, in
+   every element of objects / snapshots ... *)
+Theorem C09_jq_filter_result_of_that_object : forall (jq : jq_fn) keep obj m,
+  canon_json obj = true -> jq obj = [JObj m] -> sorted_strict m = true ->
+  jget k_filterResult (render_item (stored_via jq keep obj)) = Some (JObj m)
+  /\ jget k_object (render_item (stored_via jq keep obj)) = (if keep then Some obj else None).
+Proof. exact filter_result_of_that_object. Qed.
+Print Assumptions C09_jq_filter_result_of_that_object.
+
+(* ... and in an Event *)
+Theorem C09_jq_filter_result_of_that_object_event : forall (jq : jq_fn) c keep obj m rest,
+  is_event c = true -> c_objects c = stored_via jq keep obj :: rest ->
+  canon_json obj = true -> jq obj = [JObj m] -> sorted_strict m = true ->
+  jget k_filterResult (JObj (map_v1 c)) = Some (JObj m)
+  /\ jget k_object (JObj (map_v1 c)) = (if keep then Some obj else None).
+Proof. exact filter_result_of_that_object_event. Qed.
+Print Assumptions C09_jq_filter_result_of_that_object_event.
+
+(* what the informer path stores for an object is jq.ApplyFilter's result on it, next to the object *)
+Theorem C09_jq_informer_stores_apply_filter : forall (jq : jq_fn) w,
+  en_ofr (apply_filter_go true (wobj_via jq w))
+  = mkOfr true false (Some (w_obj w)) (FRVal (JObj (jq_apply_filter jq (w_obj w)))).
+Proof. exact apply_filter_go_via. Qed.
+Print Assumptions C09_jq_informer_stores_apply_filter.
+
+(* the contract theorems, for the cases as the correspondence evaluates them: every object sent
+   through ApplyFilter's copy, the jq oracle knowing the answer for the object itself only *)
+Theorem C09_contract_via_copy : forall v cs out,
+  forallb ctx_canon cs = true ->
+  render_list v (map ctx_run cs) = Some out -> T v cs = false -> P v cs (Some out) = true.
+Proof. exact contract_via_copy. Qed.
+Print Assumptions C09_contract_via_copy.
+
+Theorem C09_flow_contract_via_copy : forall f,
+  flow_canon f = true -> flow_wf f = true -> T_flow f = false ->
+  P_flow f (Some (run_flow (flow_run f))) = true.
+Proof. exact flow_contract_via_copy. Qed.
+Print Assumptions C09_flow_contract_via_copy.
+
+Theorem C09_hook_contract_via_copy : forall hc,
+  hcase_canon hc = true -> hook_wf hc = true -> T_hook hc = false -> T_same_type_name hc = false ->
+  T_admission_same_name hc = false ->
+  P_hook hc (Some (run_hook (hcase_run hc))) = true.
+Proof. exact hook_contract_via_copy. Qed.
+Print Assumptions C09_hook_contract_via_copy.
+
+(* non-vacuity: a ConfigMap as an API server returns it (two managedFields entries, uid,
+   resourceVersion, creationTimestamp, generation, the last-applied annotation) meets canon_json; the
+   jq program {"managers": [.metadata.managedFields[]?.manager]} yields one canonical object on it and
+   the rendered element carries that result next to the full object; on the object WITHOUT
+   managedFields the same program yields another result, and the oracle of a correspondence case
+   has no answer for that value *)
+Example C09_jq_hyp_met :
+  canon_json WitCopy.served_cm = true
+  /\ WitCopy.jq_managers WitCopy.served_cm = [JObj WitCopy.managers_result]
+  /\ sorted_strict WitCopy.managers_result = true
+  /\ WitCopy.jq_managers WitCopy.trimmed_cm <> WitCopy.jq_managers WitCopy.served_cm
+  /\ asked WitCopy.served_cm [JObj WitCopy.managers_result] WitCopy.trimmed_cm
+     = [JObj [(k_not_the_object, WitCopy.trimmed_cm)]].
+Proof.
+  destruct WitCopy.served_ok as [H1 [H2 [H3 _]]]. destruct WitCopy.trimmed_differs as [H4 [H5 _]].
+  split; [exact H1|]. split; [exact H2|]. split; [exact H3|]. split; [|exact H5].
+  rewrite H2, H4. discriminate.
 Qed.
